@@ -17,6 +17,8 @@ FAMILY = Family(
     ],
     ops={('Point', '-', 'Point'): ('Slope', 'Point_sub'), ('Slope', '<', 'Slope'): ('bool', 'Slope_lt'), ('Slope', '>', 'Slope'): ('bool', 'Slope_gt'),
          ('Slope', '==', 'Slope'): ('bool', 'Slope_eq'), ('Slope', '!=', 'Slope'): ('bool', 'Slope_ne')},
+    funcs={'make_segmentation/6': FuncInfo('make_segmentation', 'size_t'), 'make_segmentation/4': FuncInfo('make_segmentation4', 'size_t'),
+           'omp_get_num_procs': FuncInfo('pgmv_omp_get_num_procs', 'int'), 'omp_get_max_threads': FuncInfo('pgmv_omp_get_max_threads', 'int')},
     struct_methods={('CanonicalSegment', 'CanonicalSegment'): FuncInfo('CanonicalSegment_make', 'CanonicalSegment'), ('OPLM', 'OPLM'): FuncInfo('OPLM_ctor', 'void')},
     typenames={'X', 'Y', 'SX', 'SY', 'Point', 'Slope', 'CanonicalSegment', 'K'},
     templates={'OptimalPiecewiseLinearModel'},
@@ -41,10 +43,19 @@ F('OPLM_cross', HPP, 'cross', 'SY OPLM_cross(const OPLM *self, const Point *O, c
   ret='SY', params={'O': 'Ref<Point>', 'A': 'Ref<Point>', 'B': 'Ref<Point>'}, params_complete=True)
 F('OPLM_reset', HPP, 'reset', 'void OPLM_reset(OPLM *self)', cls='OptimalPiecewiseLinearModel', self_cls='OPLM', ret='void')
 F('make_segmentation', HPP, 'make_segmentation', 'size_t make_segmentation(size_t n, size_t start, size_t end, size_t epsilon, const X *in_data)', ret='size_t', ordinal=0,
-  params={'n': 'size_t', 'start': 'size_t', 'end': 'size_t', 'epsilon': 'size_t'}, env={'in': 'Fn:IN_AT', 'out': 'Fn:ms_out'},
+  params={'n': 'size_t', 'start': 'size_t', 'end': 'size_t', 'epsilon': 'size_t'}, env={'in': 'Fn:IN_AT@in_data', 'out': 'Fn:ms_out@'},
   typemap={'OptimalPiecewiseLinearModel<K, size_t>': 'OPLM', 'OptimalPiecewiseLinearModel<K,size_t>': 'OPLM'},
   lambdas={'add_point': {'ret': 'void', 'params': {'x': 'X', 'y': 'size_t'}}},
   must_fire=('lambda_lift', 'lambda_call', 'callback', 'if_constexpr', 'type_trait'))
+F('make_segmentation_par', HPP, 'make_segmentation_par', 'size_t make_segmentation_par(size_t n, size_t epsilon, const X *in_data)', ret='size_t',
+  params={'n': 'size_t', 'epsilon': 'size_t'}, env={'in': 'Fn:IN_AT@in_data', 'out': 'Fn:ms_out2@'},
+  typemap={'canonical_segment': 'CanonicalSegment', 'std::vector<std::vector<canonical_segment>>': 'Vec<vec_CanonicalSegment>'},
+  lambdas={'in_fun': {'alias': 'Fn:IN_AT@in_data'}, 'out_fun': {'alias': 'Fn:ms_out@'}},
+  must_fire=('lambda_alias', 'drop_pragma_omp', 'function_call', 'range_for'))
+FUNCS['pgmv_omp_get_num_procs'] = FuncDesc('pgmv_omp_get_num_procs', HPP, 'omp', 'int pgmv_omp_get_num_procs(void)', ret='int')
+FUNCS['pgmv_omp_get_max_threads'] = FuncDesc('pgmv_omp_get_max_threads', HPP, 'omp', 'int pgmv_omp_get_max_threads(void)', ret='int')
+FUNCS['make_segmentation4'] = FuncDesc('make_segmentation4', HPP, 'make_segmentation', 'size_t make_segmentation4(size_t n, size_t epsilon, const X *in_data)', ret='size_t')
+FUNCS['ms_out2'] = FuncDesc('ms_out2', HPP, 'out', 'void ms_out2(CanonicalSegment cs)', ret='void')
 FUNCS['ms_out'] = FuncDesc('ms_out', HPP, 'out', 'void ms_out(CanonicalSegment cs)', ret='void')
 FUNCS['Slope_lt'] = FuncDesc('Slope_lt', HPP, 'operator<', '_Bool Slope_lt(Slope a, Slope p)', ret='bool')
 FUNCS['Slope_gt'] = FuncDesc('Slope_gt', HPP, 'operator>', '_Bool Slope_gt(Slope a, Slope p)', ret='bool')
@@ -64,7 +75,7 @@ static inline _Bool Slope_gt(Slope a, Slope p) { return a.dy * p.dx > a.dx * p.d
 static inline _Bool Slope_eq(Slope a, Slope p) { return a.dy * p.dx == a.dx * p.dy; }
 static inline _Bool Slope_ne(Slope a, Slope p) { return a.dy * p.dx != a.dx * p.dy; }
 '''
-LAYOUT = ['struct:Slope', 'struct:Point', 'vec:Point', 'struct:OPLM', 'struct:CanonicalSegment', 'text:OPS']
+LAYOUT = ['struct:Slope', 'struct:Point', 'vec:Point', 'struct:OPLM', 'struct:CanonicalSegment', 'vec:CanonicalSegment', 'vec:vec_CanonicalSegment', 'text:OPS']
 MACROS = []
 
 
